@@ -782,10 +782,20 @@ evaluate() const {
       if (r1._type == RT_real || r2._type == RT_real) {
         return Result(r1.as_real() / r2.as_real());
       } else {
+        if (r2.as_integer() == 0 ||
+            (r1.as_integer() == INT_MIN && r2.as_integer() == -1)) {
+          // Not a constant expression.
+          return Result();
+        }
         return Result(r1.as_integer() / r2.as_integer());
       }
 
     case '%':
+      if (r2.as_integer() == 0 ||
+          (r1.as_integer() == INT_MIN && r2.as_integer() == -1)) {
+        // Not a constant expression.
+        return Result();
+      }
       return Result(r1.as_integer() % r2.as_integer());
 
     case '+':
@@ -807,6 +817,9 @@ evaluate() const {
 
     case '&':
       return Result(r1.as_integer() & r2.as_integer());
+
+    case '^':
+      return Result(r1.as_integer() ^ r2.as_integer());
 
     case OROR:
       if (r1.as_boolean()) {
@@ -872,9 +885,15 @@ evaluate() const {
       }
 
     case LSHIFT:
+      if (r2.as_integer() < 0 || r2.as_integer() >= (int)(sizeof(int) * 8)) {
+        return Result();
+      }
       return Result(r1.as_integer() << r2.as_integer());
 
     case RSHIFT:
+      if (r2.as_integer() < 0 || r2.as_integer() >= (int)(sizeof(int) * 8)) {
+        return Result();
+      }
       return Result(r1.as_integer() >> r2.as_integer());
 
     case '?':
